@@ -216,7 +216,7 @@ class Prop:
         def mk(op, tj, eps, alg, rmax=None, uscale=None, kind="", dim=None, xscale=None, **tags):
             N = len(tj["modes"])
             if xscale == "random":      # the whole tensor times a power of ten: every clause is scale invariant
-                xscale = rng.choice([None, None, None, 1e-3, 1e-6, 1e4])
+                xscale = rng.choice([None, None, None, 1e-3, 1e-6, 1e4, 1e-15, 1e-20])
             ts = scaled(tj, uscale, xscale)
             cond = "1"
             if uscale and any(s is not None for s in uscale):
